@@ -204,6 +204,9 @@ func DependsOn(v ssa.Value, pred func(ssa.Value) bool) bool {
 			// a field of a local struct: only what is stored into that same field
 			if al, ok := y.X.(*ssa.Alloc); ok {
 				for _, ref := range *al.Referrers() {
+					if st, ok := ref.(*ssa.Store); ok && st.Addr == ssa.Value(al) && walk(st.Val) {
+						return true // the whole struct was stored
+					}
 					if fa, ok := ref.(*ssa.FieldAddr); ok && fa.Field == y.Field {
 						for _, r2 := range *fa.Referrers() {
 							if s2, ok := r2.(*ssa.Store); ok && s2.Addr == ssa.Value(fa) && walk(s2.Val) {
